@@ -48,6 +48,7 @@ ASSUMPTIONS = ['np.union1d / np.intersect1d return the sorted distinct labels (i
 TRUSTED = []
 EXHAUSTIVE = {'quick': False, 'thorough': False}
 TRANSLATED = ['resolve_dtype', 'dtype_kind_to_na']
+SHARD_SIZE = 250          # a shard of 400 layout cases needs ~0.6 GB in coqc; smaller shards keep the peak down
 
 F_ZERO = 'C11-zero-column-result'
 
